@@ -16,30 +16,42 @@ import (
 func c04Scenarios(tier string) []CScenario {
 	k01, k10, k12, k20, k012 := []int{0, 1}, []int{1, 0}, []int{1, 2}, []int{2, 0}, []int{0, 1, 2}
 	sc := []CScenario{
-		{"same-att-twice", [][]CReq{{att1(0, 0, 1)}, {att1(0, 0, 1)}}},
-		{"advancing-atts", [][]CReq{{att1(0, 0, 1)}, {att1(0, 1, 2)}}},
-		{"surround-pair", [][]CReq{{att1(0, 1, 2)}, {att1(0, 0, 3)}}},
-		{"same-slot-props", [][]CReq{{prop1(0, 5)}, {prop1(0, 5)}}},
-		{"advancing-props", [][]CReq{{prop1(0, 5)}, {prop1(0, 6)}}},
-		{"att-vs-prop", [][]CReq{{att1(0, 0, 1)}, {prop1(0, 5)}}},
-		{"sign-vs-att", [][]CReq{{sign1(0)}, {att1(0, 0, 1)}}},
-		{"batch-ab-vs-ba", [][]CReq{{attsN(k01, 0, 1)}, {attsN(k10, 0, 1)}}},
-		{"batch-ab-vs-ba-advancing", [][]CReq{{attsN(k01, 0, 1)}, {attsN(k10, 1, 2)}}},
-		{"batch-vs-single-on-2nd", [][]CReq{{attsN(k01, 0, 1)}, {att1(1, 0, 1)}}},
-		{"batch-vs-single-on-2nd-advancing", [][]CReq{{attsN(k01, 1, 2)}, {att1(1, 0, 1)}}},
-		{"batch-vs-single-on-1st", [][]CReq{{attsN(k01, 0, 1)}, {att1(0, 1, 2)}}},
-		{"batch-vs-prop-on-2nd", [][]CReq{{attsN(k01, 0, 1)}, {prop1(1, 5)}}},
-		{"chain-ab-bc", [][]CReq{{attsN(k01, 0, 1)}, {attsN(k12, 0, 1)}}},
-		{"triple-vs-pair", [][]CReq{{attsN(k012, 0, 1)}, {attsN(k20, 1, 2)}}},
-		{"three-advancing", [][]CReq{{att1(0, 0, 1)}, {att1(0, 1, 2)}, {att1(0, 2, 3)}}},
-		{"three-same", [][]CReq{{att1(0, 0, 1)}, {att1(0, 0, 1)}, {att1(0, 0, 1)}}},
-		{"single-then-batch", [][]CReq{{att1(0, 0, 1), attsN(k01, 1, 2)}, {att1(1, 0, 1)}}},
-		{"two-then-one", [][]CReq{{att1(0, 0, 1), att1(0, 1, 2)}, {att1(0, 0, 2)}}},
-		{"lost-update-props", [][]CReq{{prop1(0, 5), prop1(0, 7)}, {prop1(0, 6)}}},
-		{"ring-of-batches", [][]CReq{{attsN(k01, 0, 1)}, {attsN(k12, 0, 1)}, {attsN(k20, 0, 1)}}},
-		{"same-batch-twice", [][]CReq{{attsN(k01, 0, 1)}, {attsN(k01, 0, 1)}}},
-		{"multisign-vs-batch", [][]CReq{{signsN(0, 1)}, {attsN(k10, 0, 1)}}},
-		{"batch-vs-two-singles", [][]CReq{{attsN(k01, 1, 2)}, {att1(0, 0, 1)}, {att1(1, 0, 1)}}},
+		{Name: "same-att-twice", Threads: [][]CReq{{att1(0, 0, 1)}, {att1(0, 0, 1)}}},
+		{Name: "advancing-atts", Threads: [][]CReq{{att1(0, 0, 1)}, {att1(0, 1, 2)}}},
+		{Name: "surround-pair", Threads: [][]CReq{{att1(0, 1, 2)}, {att1(0, 0, 3)}}},
+		{Name: "same-slot-props", Threads: [][]CReq{{prop1(0, 5)}, {prop1(0, 5)}}},
+		{Name: "advancing-props", Threads: [][]CReq{{prop1(0, 5)}, {prop1(0, 6)}}},
+		{Name: "att-vs-prop", Threads: [][]CReq{{att1(0, 0, 1)}, {prop1(0, 5)}}},
+		{Name: "sign-vs-att", Threads: [][]CReq{{sign1(0)}, {att1(0, 0, 1)}}},
+		{Name: "batch-ab-vs-ba", Threads: [][]CReq{{attsN(k01, 0, 1)}, {attsN(k10, 0, 1)}}},
+		{Name: "batch-ab-vs-ba-advancing", Threads: [][]CReq{{attsN(k01, 0, 1)}, {attsN(k10, 1, 2)}}},
+		{Name: "batch-vs-single-on-2nd", Threads: [][]CReq{{attsN(k01, 0, 1)}, {att1(1, 0, 1)}}},
+		{Name: "batch-vs-single-on-2nd-advancing", Threads: [][]CReq{{attsN(k01, 1, 2)}, {att1(1, 0, 1)}}},
+		{Name: "batch-vs-single-on-1st", Threads: [][]CReq{{attsN(k01, 0, 1)}, {att1(0, 1, 2)}}},
+		{Name: "batch-vs-prop-on-2nd", Threads: [][]CReq{{attsN(k01, 0, 1)}, {prop1(1, 5)}}},
+		{Name: "chain-ab-bc", Threads: [][]CReq{{attsN(k01, 0, 1)}, {attsN(k12, 0, 1)}}},
+		{Name: "triple-vs-pair", Threads: [][]CReq{{attsN(k012, 0, 1)}, {attsN(k20, 1, 2)}}},
+		{Name: "three-advancing", Threads: [][]CReq{{att1(0, 0, 1)}, {att1(0, 1, 2)}, {att1(0, 2, 3)}}},
+		{Name: "three-same", Threads: [][]CReq{{att1(0, 0, 1)}, {att1(0, 0, 1)}, {att1(0, 0, 1)}}},
+		{Name: "single-then-batch", Threads: [][]CReq{{att1(0, 0, 1), attsN(k01, 1, 2)}, {att1(1, 0, 1)}}},
+		{Name: "two-then-one", Threads: [][]CReq{{att1(0, 0, 1), att1(0, 1, 2)}, {att1(0, 0, 2)}}},
+		{Name: "lost-update-props", Threads: [][]CReq{{prop1(0, 5), prop1(0, 7)}, {prop1(0, 6)}}},
+		{Name: "ring-of-batches", Threads: [][]CReq{{attsN(k01, 0, 1)}, {attsN(k12, 0, 1)}, {attsN(k20, 0, 1)}}},
+		{Name: "same-batch-twice", Threads: [][]CReq{{attsN(k01, 0, 1)}, {attsN(k01, 0, 1)}}},
+		{Name: "multisign-vs-batch", Threads: [][]CReq{{signsN(0, 1)}, {attsN(k10, 0, 1)}}},
+		{Name: "batch-vs-two-singles", Threads: [][]CReq{{attsN(k01, 1, 2)}, {att1(0, 0, 1)}, {att1(1, 0, 1)}}},
+	}
+	// Batches with three keys in every cyclic order, under both bytewise key orders (an implementation may order lock
+	// acquisition by key bytes).
+	for _, desc := range []bool{false, true} {
+		for i, l := range [][]int{{0, 1, 2}, {1, 2, 0}, {2, 0, 1}, {2, 1, 0}} {
+			for j, m := range [][]int{{0, 1, 2}, {1, 2, 0}, {2, 0, 1}, {2, 1, 0}} {
+				if j <= i {
+					continue
+				}
+				sc = append(sc, CScenario{Name: fmt.Sprintf("triple%v-vs-triple%v-desc=%v", l, m, desc), Threads: [][]CReq{{attsN(l, 0, 1)}, {attsN(m, 1, 2)}}, DescKeys: desc})
+			}
+		}
 	}
 	if tier == "thorough" {
 		// All unordered pairs and selected triples of a request menu on shared keys.
@@ -47,15 +59,15 @@ func c04Scenarios(tier string) []CScenario {
 			attsN(k01, 0, 1), attsN(k10, 1, 2), attsN(k12, 0, 1), attsN(k012, 0, 1), attsN(k20, 1, 2)}
 		for i := range menu {
 			for j := i; j < len(menu); j++ {
-				sc = append(sc, CScenario{fmt.Sprintf("pair-%d-%d", i, j), [][]CReq{{menu[i]}, {menu[j]}}})
-				sc = append(sc, CScenario{fmt.Sprintf("seq-%d-%d-vs-%d", i, j, (i+j)%len(menu)), [][]CReq{{menu[i], menu[j]}, {menu[(i+j)%len(menu)]}}})
+				sc = append(sc, CScenario{Name: fmt.Sprintf("pair-%d-%d", i, j), Threads: [][]CReq{{menu[i]}, {menu[j]}}})
+				sc = append(sc, CScenario{Name: fmt.Sprintf("seq-%d-%d-vs-%d", i, j, (i+j)%len(menu)), Threads: [][]CReq{{menu[i], menu[j]}, {menu[(i+j)%len(menu)]}}})
 			}
 		}
 		for i := 0; i < len(menu); i++ {
 			for j := i; j < len(menu); j++ {
 				for k := j; k < len(menu); k++ {
 					if (i+j+k)%3 == 0 {
-						sc = append(sc, CScenario{fmt.Sprintf("triple-%d-%d-%d", i, j, k), [][]CReq{{menu[i]}, {menu[j]}, {menu[k]}}})
+						sc = append(sc, CScenario{Name: fmt.Sprintf("triple-%d-%d-%d", i, j, k), Threads: [][]CReq{{menu[i]}, {menu[j]}, {menu[k]}}})
 					}
 				}
 			}
